@@ -329,3 +329,24 @@ fn _get_many_from_sorted_mut_unchecked<A>(
         bigger_values,
     );
 }
+
+#[cfg(rust_ndarray_ndarray_stats_verif)]
+pub fn verif_get_many_rec<A: Ord + Clone>(
+    array: ArrayViewMut1<'_, A>,
+    indexes: &mut [usize],
+    values: &mut [A],
+) {
+    _get_many_from_sorted_mut_unchecked(array, indexes, values)
+}
+
+#[cfg(rust_ndarray_ndarray_stats_verif)]
+pub fn verif_get_many_unchecked<A, S>(
+    array: &mut ArrayBase<S, Ix1>,
+    indexes: &[usize],
+) -> IndexMap<usize, A>
+where
+    A: Ord + Clone,
+    S: DataMut<Elem = A>,
+{
+    get_many_from_sorted_mut_unchecked(array, indexes)
+}
